@@ -327,7 +327,19 @@ def rule_e(ctx: Ctx):
         ctx.ob("C02.e", f"{fn}:loop", ok, fi.loc, why, construct=f"{fn}:decoding-loop")
 
 
+def rule_f(ctx: Ctx):
+    """C02.f progress: a constraint boundary tighter than the problem definition can mask every
+    remaining customer of a feasible instance (e.g. demand == capacity at a fresh vehicle) so
+    that the episode never finishes; same comparison table as C05.a."""
+    from .C01 import check_literals
+    for cname, (path, family) in T.ENVS.items():
+        env = EnvA(ctx.repo, path, cname)
+        sl, root = mask_root(env, family)
+        check_literals(ctx, "C02", env, sl, root, T.MASK[cname], "mask", "tighter", ids=("C02.f", "C02.f"))
+
+
 def run(ctx: Ctx):
+    rule_f(ctx)
     for cname, path in T.ALL_ENVS.items():
         env = EnvA(ctx.repo, path, cname)
         sl = env.slot("_step")
